@@ -150,8 +150,13 @@ func (upc *BroadcastRawUDPConn) WriteTo(b []byte, addr net.Addr) (int, error) {
 		return 0, ErrUDPAddrIsRequired
 	}
 
-	// Using the boundAddr is not quite right here, but it works.
-	pkt := udp4pkt(b, udpAddr, upc.boundAddr)
+	// Using the boundAddr is not quite right here, but it works. An unbound
+	// connection sends from the unspecified address.
+	src := upc.boundAddr
+	if src == nil {
+		src = &net.UDPAddr{}
+	}
+	pkt := udp4pkt(b, udpAddr, src)
 
 	// Broadcasting is not always right, but hell, what the ARP do I know.
 	return upc.PacketConn.WriteTo(pkt, &packet.Addr{HardwareAddr: BroadcastMac})
